@@ -13,7 +13,6 @@ Oracle: a reference map maintained here directly from the property text.
 """
 from __future__ import annotations
 
-import itertools
 import os
 import threading
 import time
